@@ -1,6 +1,6 @@
 (* C13 - packs are append-only and filled in order.  Statements only. *)
 From Coq Require Import List ZArith NArith.
-From DOS Require Import Base Store StoreProofs StoreLemmas Mono MonoStep.
+From DOS Require Import Base Store StoreProofs StoreLemmas Mono MonoStep PickPack.
 Import ListNotations.
 
 Section C13.
@@ -24,6 +24,17 @@ Proof. exact (c13_all_sound H inflate H_inj). Qed.
 Theorem C13_monotone_history_keeps_referenced_bytes : forall w w', Inv H inflate w -> Mono w w' -> keeps_ref w w'.
 Proof. exact (mono_keeps_ref H inflate). Qed.
 End C13.
+(* layout half: _get_pack_id_to_write_to, from any cached id <= n, returns the last pack when that is below the target and the next
+   fresh id otherwise - never an earlier (full) pack; so writing to the chosen pack keeps "ids consecutive from 0 and every pack
+   but the last at or above the target" *)
+Theorem C13_pack_choice_keeps_layout : forall sizes target n cached fuel,
+  layout sizes target n -> (0 <= cached <= n)%Z -> (Z.to_nat (n - cached) <= fuel)%nat ->
+  exists r, pick fuel sizes target cached = Some r /\
+    ((r = n /\ (n = 0%Z \/ exists sz, sizes (n - 1)%Z = Some sz /\ ((target <= sz)%Z \/ cached = n))) \/
+     (r = (n - 1)%Z /\ exists sz, sizes r = Some sz /\ (sz < target)%Z) \/
+     ((r < n - 1)%Z /\ False)).
+Proof. exact pick_keeps_layout. Qed.
+Print Assumptions C13_pack_choice_keeps_layout.
 Print Assumptions C13_step_keeps_referenced_bytes.
 Print Assumptions C13_trace_checker_sound.
 Print Assumptions C13_monotone_history_keeps_referenced_bytes.
